@@ -8,6 +8,8 @@ AllInners == {"I1", "I2", "I3", "I4", "I5", "I6"}
 O12 == {"O1", "O2"}
 I12 == {"I1", "I3"}
 KL_one   == { <<"K1">> }
+KL_c08   == { <<"K1">>, <<"K7", "K1">> }
+C08Clients == {"K1", "K7"}
 KL_c04   == { <<"K1">>, <<"K4", "K1">>, <<>>, <<"KX", "K4", "K1">> }
 KL_c02   == { <<"K1">>, <<"K2", "K1">>, <<"K1b">>, <<"K4">>, <<"KX", "K1", "K4">>, <<"K4", "K1">> }
 \* every list of 1..N distinct keys from the pool
